@@ -169,15 +169,29 @@ def ownerRc4Key (rev n : Nat) (ownerPw : Bytes) : Bytes := ownerKey rev n ownerP
 def rc4Down20 (k data : Bytes) : Bytes :=
   (List.range 20).foldr (fun i d => rc4 (xorKey k i) d) data
 
-/-- `validate_owner_password` for R2–R4 (public API, not used by the reader): the recovered
-padded password is cut at the first `(` (0x28) unless it is exactly the padding string, then
-turned into a `String` lossily and re-padded. -/
+/-- `validate_owner_password` for R2–R4 WITHOUT a /U entry (and, before the repair of C23-F2, in
+every case): the recovered padded password is cut at the first `(` (0x28) unless it is exactly
+the padding string, then turned into a `String` lossily and re-padded — a plausibility check. -/
 def validateOwnerPasswordLegacy (rev n : Nat) (ownerPw o : Bytes) : Bool :=
   let k := ownerRc4Key rev n ownerPw
   let dec := if rev ≥ 3 then rc4Down20 k (o.take 32) else rc4 k (o.take 32)
   let userBytes := if pwPadding.isPrefixOf dec then dec else dec.takeWhile (· ≠ 0x28)
   let recovered := utf8Lossy userBytes
   decide ((computeOwnerHash rev n ownerPw recovered).take 32 = o.take 32)
+
+/-- `validate_owner_password` for R2–R4 (public API, not used by the reader). With the /U entry
+the 32 recovered bytes go through `compute_user_hash_from_padded` (metadata flag `true`) and are
+compared with /U as Algorithm 6 does; without it the plausibility check above is all there is. -/
+def validateOwnerPassword (rev n : Nat) (ownerPw o : Bytes) (p : Nat) (id : Option Bytes)
+    (u : Option Bytes) : Bool :=
+  match u with
+  | none => validateOwnerPasswordLegacy rev n ownerPw o
+  | some u =>
+    let k := ownerRc4Key rev n ownerPw
+    let dec := if rev ≥ 3 then rc4Down20 k (o.take 32) else rc4 k (o.take 32)
+    let cu := computeUserHashFromPadded rev n dec o p id true
+    let len := if rev ≥ 3 then 16 else 32
+    decide (cu.length ≥ len) && decide (u.length ≥ len) && decide (cu.take len = u.take len)
 
 /-! ### Algorithm 2.B as coded (cap 2048, error above 127 bytes) -/
 
@@ -187,8 +201,12 @@ def alg2bCode (pw salt udata : Bytes) : Option Bytes :=
     let u := udata.take 48
     some (((alg2bLoop pw u 2048 0 (sha256 (pw ++ salt ++ u))).1).take 32)
 
+/-- `r5_r6_password_bytes`: the first 127 bytes of the UTF-8 password (Algorithm 2.A (a)) -/
+def pw56 (pw : Bytes) : Bytes := pw.take 127
+
+/-- the hash of the R5 / R6 entry points: SHA-256 resp. Algorithm 2.B on the truncated password -/
 def hashCode (rev : Nat) (pw salt udata : Bytes) : Option Bytes :=
-  if rev = 5 then some (sha256 (pw ++ salt ++ udata)) else alg2bCode pw salt udata
+  if rev = 5 then some (sha256 (pw56 pw ++ salt ++ udata)) else alg2bCode (pw56 pw) salt udata
 
 /-- `defined_entry_prefix` -/
 def entryPrefix (e : Bytes) : Option Bytes := if e.length < 48 then none else some (e.take 48)
